@@ -81,6 +81,11 @@ class ThreadCfg(Cfg):
             return None
         elif self.follow_attrs:
             t = self.concrete(self.recv_type(rtext, st)) if re.fullmatch(r"[A-Za-z_][\w.]*", rtext) else None
+            if t is None and st.last_orig is not None and isinstance(st.last_orig.func, ast.Attribute):
+                # the receiver was a local variable that has been substituted by its defining term: type it by its name
+                otext = ast.unparse(st.last_orig.func.value)
+                if re.fullmatch(r"[A-Za-z_]\w*", otext) and otext != "self":
+                    t = self.concrete(self.local_type(otext, st))
             if t and t in P.classes:
                 fi = P.find_method(t, meth)
                 selfcls = t
